@@ -99,6 +99,10 @@ fixed(['C13'], '521ec1f', 'ratFromString accepted zero denominators ("1/0"): inv
 
 fixed(['C11', 'C03', 'C04'], '4010765', 'rational sparse solveLleft (behind SLUFactorRational::solveLeft(SSVector&, SVector&) and getBasisInverseRowRational) queued an index twice after exact cancellation: inexact inverse rows, duplicate indices, heap-buffer-overflow')
 
+fixed(['C18', 'C17'], '3302c21', 'follow-up to ac19462: SLUFactor::assign copied the row-wise L factor with l.start[l.firstUpdate] entries; after a factorization that ended singular the row-wise arrays are leftovers of the previous one and the copy read beyond them (TSan heap-use-after-free in the C18 thorough run)')
+fixed(['C13'], 'dd99e13', 'LPFhasKeyword matched a "]" of the input against the closing bracket of the keyword pattern ("Maximize]") and then searched for "]" beyond the string literal: global-buffer-overflow in the LP reader')
+fixed(['C13'], 'c5b4214', 'real MPS reader accepted nan / inf / overflowing numbers through atof(): non-finite coefficients, sides and bounds; exception XMAISM14 out of optimize(), heap-buffer-overflow in the bound flipping ratio test')
+
 # ------------------------------------------------------------------ open findings
 UND = r'(ABORT_CYCLING|RUNNING|UNKNOWN|ERROR|SINGULAR|NO_PROBLEM|NOT_INIT|OPTIMAL_UNSCALED_VIOLATIONS)'
 # --- simplex core
